@@ -438,7 +438,7 @@ pub fn check_def() -> PropertyCheck {
   PropertyCheck {
     id: "C19",
     scenarios: vec![Box::new(C19Des), Box::new(C19Threads)],
-    runs: (150_000, 24_000_000),
+    runs: (300_000, 24_000_000),
     rule: "case = 1-4 tasks (Once/Sub/Repeat/Future) with delays {none,0,1,5}ms + action list (schedule, run ready task #k, advance clock, jump to next deadline, cancel handle, sample is_closed, emit to subject); non-trivial = a cancel landed before the first poll or while pending on a timer, or a run decision had >= 2 ready tasks; distinct = distinct (case, behaviour) hashes",
     assumptions: vec![
       "executor/timer/clock are the simulator's; schedule(), Remote, TaskHandle and the task types are the shipped code",
